@@ -632,6 +632,8 @@ package compose
 //@   requires[stream_inputs] isStream ==> forall(i int :: 0 <= i && i < len(input) ==> is(input[i], "streamReader"))
 //@   requires[end_nodes_known] forall(b int, k string :: 0 <= b && b < len(startChan.writeToBranches) && in(k, startChan.writeToBranches[b].endNodes) ==> in(k, cm.channels))
 //@   modifies elems(input), chanCtl(cm)
+//@   at call cm.reportBranch: assert[plain_control_successors_are_not_reported_skipped] @C02 forall(q int, m int :: 0 <= q && q < len(startChan.controls) && 0 <= m && m < len(arg1) ==> arg1[m] != startChan.controls[q])
+//@   note plain_control_successors_are_not_reported_skipped: a node that the finished node also reaches through a plain control edge has been routed to by it; a branch of the same node that does not select it must not mark it as skipped
 //@   ensures[no_branch] len(startChan.writeToBranches) == 0 && result1 == nil ==> len(result0) == 0
 //@   ensures[fresh_result] result1 == nil ==> fresh(result0)
 //@   ensures[targets] result1 == nil ==> forall(i int :: 0 <= i && i < len(result0) ==> in(result0[i], cm.channels))
@@ -652,7 +654,13 @@ package compose
 //@     invariant[skipped_known] forall(k string :: in(k, skippedNodes) ==> in(k, cm.channels))
 //@     invariant[not_selected] forall(k string :: in(k, skippedNodes) ==> !exists(j int :: 0 <= j && j < $i && ret[j] == k))
 //@   loop 5:
+//@     modifies map(skippedNodes)
+//@     invariant[skipped_known] forall(k string :: in(k, skippedNodes) ==> in(k, cm.channels))
+//@     invariant[not_selected] forall(k string :: in(k, skippedNodes) ==> !inList(k, ret))
+//@     invariant[no_plain_successor] forall(q int :: 0 <= q && q < $i ==> !in(startChan.controls[q], skippedNodes))
+//@   loop 6:
 //@     modifies fresh()
+//@     invariant[no_plain_successor] forall(q int :: 0 <= q && q < len(startChan.controls) ==> !in(startChan.controls[q], skippedNodes))
 //@     invariant[fresh] (skippedNodeList == nil || fresh(skippedNodeList)) && arr(skippedNodeList) != arr(ret)
 //@     invariant[known] forall(i int :: 0 <= i && i < len(skippedNodeList) ==> in(skippedNodeList[i], cm.channels))
 //@     invariant[from_map] forall(i int :: 0 <= i && i < len(skippedNodeList) ==> in(skippedNodeList[i], skippedNodes))
